@@ -84,6 +84,9 @@ def bootstrap():
     from . import omdao_patch
 
     omdao_patch.apply()
+    import openmdao.api  # noqa: F401  (installs its own warning filters; ours must come after)
+
+    warnings.filterwarnings("ignore")
     _BOOTSTRAPPED = True
 
 
